@@ -39,10 +39,10 @@ type c07Repo struct {
 var c07ModeNames = map[repository.CompressionMode]string{repository.CompressionAuto: "auto", repository.CompressionOff: "off",
 	repository.CompressionMax: "max", repository.CompressionFastest: "fastest", repository.CompressionBetter: "better"}
 
-func c07NewRepo(v uint, mode repository.CompressionMode) (*c07Repo, error) {
+func c07NewRepo(v uint, mode repository.CompressionMode, noVerify bool) (*c07Repo, error) {
 	vsetupFast()
 	be := mem.New()
-	repo, err := repository.New(be, repository.Options{Compression: mode})
+	repo, err := repository.New(be, repository.Options{Compression: mode, NoExtraVerify: noVerify})
 	if err != nil {
 		return nil, err
 	}
@@ -139,14 +139,15 @@ func engineC07(c *vctx) error {
 	c.Preamble("Import C07m.")
 	ctx := context.Background()
 	type cfg struct {
-		v    uint
-		mode repository.CompressionMode
+		v        uint
+		mode     repository.CompressionMode
+		noVerify bool // repository.Options.NoExtraVerify: saveUnpacked skips its self check
 	}
-	cfgs := []cfg{{1, repository.CompressionAuto}, {1, repository.CompressionMax}, {2, repository.CompressionAuto}, {2, repository.CompressionOff},
-		{2, repository.CompressionMax}, {2, repository.CompressionFastest}, {2, repository.CompressionBetter}}
-	perCfg := c.n(36, 600)
+	cfgs := []cfg{{1, repository.CompressionAuto, false}, {1, repository.CompressionMax, true}, {2, repository.CompressionAuto, false}, {2, repository.CompressionOff, false},
+		{2, repository.CompressionOff, true}, {2, repository.CompressionMax, false}, {2, repository.CompressionFastest, true}, {2, repository.CompressionBetter, false}}
+	perCfg := c.n(32, 520)
 	for _, cf := range cfgs {
-		r, err := c07NewRepo(cf.v, cf.mode)
+		r, err := c07NewRepo(cf.v, cf.mode, cf.noVerify)
 		if err != nil {
 			// Init saves the key and the config through saveUnpacked: a repository that cannot even be
 			// initialised is reported as a config file that was not saved / does not load back
@@ -156,6 +157,9 @@ func engineC07(c *vctx) error {
 		}
 		key := r.repo.Key()
 		tag := fmt.Sprintf("v%d/%s", cf.v, c07ModeNames[cf.mode])
+		if cf.noVerify {
+			tag += "/noverify"
+		}
 		rng := c.rng.fork()
 
 		// ---- save then load ----
@@ -329,7 +333,7 @@ func engineC07(c *vctx) error {
 		}
 
 		// ---- verifyUnpacked ----
-		for i := 0; i < perCfg/2; i++ {
+		for i := 0; i < perCfg/2 && !cf.noVerify; i++ { // with NoExtraVerify the self check is a no-op
 			ft := c07Types[rng.intn(len(c07Types))]
 			expected := c07Payload(rng, rng.intn(8))
 			inner := expected
